@@ -158,3 +158,68 @@ func init() {
 		Desc: "a worker function that returns at once after handing its stop channel to a helper goroutine; two holders",
 		Opts: vrt.Options{Delay: true}, Run: workerEarlyReturn, Check: workerEarlyCheck})
 }
+
+// W-lasso: starvation decided as a FAIR CYCLE (lasso) rather than as non-termination of a finite
+// driver. One caller X queues a single call; the loopers keep calling. Every time a function
+// starts while X's call is still queued, the complete state of the pool is recorded (vo_workers.go:
+// the Workers fields with queue entries named by their caller, the phase of every caller, and the
+// pending operation + source position of every other thread). Two equal snapshots of one
+// execution, between which every live thread moved unless it is blocked on a receive / wait,
+// close a cycle that can be repeated for ever under a fair scheduler with X never executed.
+func workersLasso(loopers, rounds int, counts []int) func() {
+	return func() {
+		var w Workers
+		ls := newLasso(&w, loopers+1)
+		var wg sync.WaitGroup
+		for id := 0; id <= loopers; id++ {
+			n := counts[id%len(counts)]
+			fn := func() (interface{}, error) {
+				ls.phase[id] = 2
+				vrt.Log("start", id)
+				ls.snap(id)
+				if id != 0 {
+					vrt.Point()
+				}
+				vrt.Log("end", id)
+				ls.phase[id] = 3
+				return id, nil
+			}
+			ls.register(id, fn)
+			wg.Add(1)
+			go func() {
+				defer wg.Done()
+				k := rounds
+				if id == 0 {
+					k = 1
+				}
+				for r := 0; r < k; r++ {
+					ls.phase[id] = 1
+					vrt.Log("call", id, n)
+					v, err := w.Call(n, fn)
+					ls.phase[id] = 0
+					vrt.Log("ret", id, fmt.Sprint(v), fmt.Sprint(err))
+				}
+			}()
+		}
+		wg.Wait()
+		w.Wait()
+		vrt.Log("waited", w.Count())
+	}
+}
+
+func init() {
+	for _, c := range []struct {
+		name            string
+		loopers, rounds int
+		counts          []int
+		q, t            int
+	}{
+		{"W-lasso-1", 2, 3, []int{1}, 4, 5},
+		{"W-lasso-2", 3, 3, []int{2}, -1, 3},
+		{"W-lasso-21", 2, 3, []int{1, 2, 1}, 3, 4},
+	} {
+		vrt.Register(&vrt.Scenario{Name: c.name, Props: []string{"C14", "C12:goroutine-leak"}, Quick: c.q, Thorough: c.t, Heavy: true,
+			Desc: fmt.Sprintf("starvation as a fair cycle: one queued call of X against %d callers that keep calling (%d rounds each, counts %v); no state of the pool with X still queued may recur with every live thread having moved", c.loopers, c.rounds, c.counts),
+			Opts: vrt.Options{Delay: true, Sites: true}, Run: workersLasso(c.loopers, c.rounds, c.counts), Check: lassoCheck})
+	}
+}
